@@ -548,6 +548,15 @@ MONEY_PANIC = re.compile(r'insufficient_deposit|negative_coin_amount|insufficien
 INDEX_PANIC = re.compile(r'invalid_key_length|_key_[0-9A-Fa-f]+_does_not_exist')
 
 
+def C14_EXPORT(m):
+    """An `export` disagreement that concerns the swap records: differing `G swap` lines, or a swap section
+    that one side's validation refuses."""
+    sw = lambda ls: sorted(x for x in (ls or []) if isinstance(x, str) and x.startswith('G swap'))
+    if m.get('kind') == 'events':
+        return sw(m.get('impl')) != sw(m.get('model'))
+    return 'swap' in str(m.get('impl') or '') or 'swap' in str(m.get('model') or '')
+
+
 def section_relevant(prop, m):
     proj = PROPS[prop].get('sections')
     if proj is None:
@@ -577,6 +586,9 @@ def section_relevant(prop, m):
             if pat == opk or pat == opk + ':' + sub or pat == '*':
                 return True
         return False
+    if m['kind'] in ('events', 'result') and op.startswith('export') and prop == 'C14' and C14_EXPORT(m):
+        # "is recorded": the swap records the chain hands out (export lists every record) differ from the executed swaps
+        return True
     if m['kind'] == 'events' and op.startswith('export') and prop == 'C19':
         # the exported (decoded) records differ from the stored ones as the model reads them
         return True
@@ -648,6 +660,16 @@ def concrete_failure(prop, m):
         return True
     if prop == 'C19' and m.get('kind') == 'events' and op.startswith('export'):
         # a stored record that does not decode to the value it was written from (the export lists every record)
+        return True
+    if prop == 'C18' and m.get('kind') == 'state':
+        # settlement books a session's bytes on the allocation of the subscription the session was started on
+        # (Props/C18 session_settled_against_its_own_subscription; allocations and payouts carry their subscription's
+        # identifier): the implementation changed an allocation or payout under a different identifier than the model
+        keys = lambda ls: {x.split()[3] for x in (ls or []) if x.startswith('+S vpn subscription 20') or x.startswith('+S vpn subscription 30')}
+        if keys(m.get('only_impl')) != keys(m.get('only_model')):
+            return True
+    if prop == 'C14' and op.startswith('export') and C14_EXPORT(m):
+        # every executed swap is recorded under its own hash with the credited amount (Props/C14 swapLedger, one_swap_per_hash)
         return True
     if prop == 'C14' and m.get('kind') == 'state' and op.startswith('tx swap'):
         # an accepted swap mints exactly amount/100 to the receiver and records it (Props/C14)
